@@ -81,7 +81,14 @@ def run_contract(E, contract, max_paths=4000):
             out = Outcome("return", v)
         except PyRaise as e:
             out = Outcome("raise", e.exc)
-        goals = contract.post(E, st, out)
+        try:
+            goals = contract.post(E, st, out)
+        except (PyRaise, Unsupported):
+            raise
+        except (TypeError, AttributeError, KeyError, IndexError, ValueError) as ex:
+            # the outcome contains a value the clause language cannot talk about (an unmodelled library object, a container of
+            # unexpected shape): the function left the supported subset -- undecided + bounded search, never a checker crash
+            raise Unsupported("contract clauses could not be evaluated on the symbolic outcome (%s: %s)" % (type(ex).__name__, str(ex)[:120]))
         for gname, g in E.path.side_goals:
             goals[gname] = sym.And(goals[gname], g) if gname in goals else g
         return ("done", (out, goals, st))
@@ -174,7 +181,12 @@ def verify(run, E, contract, prefix=None, tier=None, crosscheck=True, known=None
                 if verdict[0] == "confirmed":
                     ob.refuted(verdict[1], replay_script=verdict[2], clause=c, solver_output=str(a.model)[:4000])
                 elif verdict[0] == "havoc":
-                    ob.undecided("counter-model passes through unmodelled values: %s" % "; ".join(p.havoc))
+                    # bounded fallback: a REAL failing input of this clause among the contract's own samples
+                    v2 = _search(run, contract, c, "counter-model passes through unmodelled values")
+                    if v2[0] == "confirmed":
+                        ob.refuted(v2[1], replay_script=v2[2], clause=c, solver_output=str(a.model)[:4000])
+                    else:
+                        ob.undecided("counter-model passes through unmodelled values: %s" % "; ".join(p.havoc))
                 elif verdict[0] == "noinput":
                     ob.refuted(verdict[1], replay_script=None, clause=c, solver_output=str(a.model)[:4000])
                 else:
